@@ -140,3 +140,18 @@ def cyclic_digraphs(n, max_edges=None):
 def kind_assignments(es, kinds="dln"):
     for ks in itertools.product(kinds, repeat=len(es)):
         yield tuple((c, p, k) for (c, p), k in zip(es, ks))
+
+
+def selftest():
+    names = NAMINGS[0]
+    diamond = ((1, 0, "d"), (2, 0, "l"), (3, 1, "d"), (3, 2, "n"))
+    v = value(4, diamond, 3, names)
+    return [
+        ("543 labelled DAGs on 4 nodes", len(dags(4)) == 543), ("25 on 3 nodes", len(dags(3)) == 25),
+        ("diamond value", v[0] == "b" and [slot for slot, _ in v[1]] == ["D0", "N"] and v[1][0][1] == ("a", (("D0", ("d", ())),))),
+        ("self loop is a cycle", has_cycle(1, ((0, 0, "d"),))), ("chain is not", not has_cycle(3, ((1, 0, "d"), (2, 1, "l")))),
+        ("tail reaches cycle", reaches_cycle(3, ((0, 1, "d"), (1, 0, "d"), (2, 0, "l"))) == {0, 1, 2}),
+        ("separate component does not", reaches_cycle(3, ((0, 1, "d"), (1, 0, "d"))) == {0, 1}),
+        ("multi-reference slots", slots_of(2, ((1, 0, "ddl"),), 1, names) == [("D0", "d"), ("D1", "d"), ("L", ["d"])]),
+        ("render", render(2, ((1, 0, "dl"),), names) == "d = Node()\na = Node(D0 = d, L = [d])"),
+    ]
